@@ -1,4 +1,5 @@
 """coqrun.py — compile the Coq obligations of one property and report what was discharged."""
+import json
 import os, re, glob
 from . import common
 
@@ -60,6 +61,9 @@ def deps_of(vfile):
     return seen
 
 
+CODEC_PIDS = {'C01', 'C02', 'C03', 'C04', 'C05', 'C08', 'C09', 'C10', 'C14', 'C17'}
+
+
 def prove(verdict, pid, inst_files, lib_note=True):
     """Build Props/Properties_<pid>.vo.  Returns (ok, failed_lemmas, info)."""
     target = 'Props/Properties_%s.vo' % pid
@@ -77,6 +81,19 @@ def prove(verdict, pid, inst_files, lib_note=True):
         failed.append({'file': f, 'line': line, 'lemma': st[-1][0] if st else '?', 'error': msg[:400]})
     if not ok and not failed:
         failed.append({'file': '?', 'line': 0, 'lemma': '?', 'error': log[-800:]})
+    # statements of the codec sources the translator could not express make every theorem about that class vacuous
+    # (the program becomes PUnsupported): anything beyond the committed list is a broken obligation
+    if pid in CODEC_PIDS:
+        try:
+            warn = json.load(open(os.path.join(common.BUILD, 'gen/meta.json'))).get('warnings', [])
+            allowed = set(json.load(open(os.path.join(common.VERIF, 'translator/allowed_warnings.json'))))
+        except (OSError, ValueError):
+            warn, allowed = [], set()
+        for wmsg in warn:
+            if wmsg not in allowed:
+                ok = False
+                failed.append({'file': 'translator/blf2coq.py', 'line': 0, 'lemma': 'translator_covers_source',
+                               'error': 'the translator cannot express a statement of the codec sources, the theorems about this class no longer speak about the code: ' + wmsg[:300]})
     # statements in a file after its first failure, and in files depending on it, are not checked
     undone = set()
     for fl in failed:
